@@ -89,6 +89,11 @@ func (t *treeGen) pluginTree(healthy bool, withBinaries bool) ([]plEntry, []plIn
 			continue
 		}
 		fs = append(fs, plEntry{path: "plugins/" + r, dir: true})
+		if !healthy && g.Chance(1, 3) {
+			// a directory that is not a plugin (hidden cache directory, stray folder) next to the plugin directories: it is
+			// listed like any other entry, and must not shift anybody else's versions
+			fs = append(fs, plEntry{path: "plugins/" + r + "/" + Pick(g, []string{".cache", ".git", "zz-other", "aaa"}), dir: true})
+		}
 		nplug := g.Intn(4)
 		used := map[string]bool{}
 		for j := 0; j < nplug; j++ {
